@@ -424,6 +424,7 @@ def run(ctx):
     flag = run_translator(ctx)
     ctx.cov["replace_offsets_file_relative(extracted)"] = flag
     ctx.prove(PROP)
+    ctx.prove("RModel.Props.Compose")      # incl. exact_pass_models_agree: the two hand-written models of pattern.rs are one function
     ok, msg = common.cargo_build()
     if not ok:
         ctx.broke("build", "cargo", msg)
